@@ -115,6 +115,27 @@ def boundary(rnd, level, ultra=False):
     return data
 
 
+def chunk_straddle(rnd, level):
+    """A run of equal bytes that straddles the first read-chunk boundary (level*100000) while the current block
+    has 0..8 free bytes left: exercises the resumed-run path of the collector (--sequential carries a block
+    across chunks)."""
+    cap = level * 100000
+    j = rnd.randint(0, 9)
+    pre = bytearray(rnd.randbytes(cap - j))
+    for i in range(1, len(pre)):
+        if pre[i] == pre[i - 1]:
+            pre[i] = (pre[i] + 1 + (i & 1)) & 0xff          # run-free prefix: cost == length
+    if rnd.random() < 0.3:
+        k = rnd.randint(1, 3)                                 # or: the run starts a little earlier
+        pre = pre[:len(pre) - k]
+    c = (pre[-1] + 7) & 0xff if pre else 65
+    rl = rnd.choice([2, 3, 4, 5, 6, 7, 8, 9, 12, 258, 259, 260, 264, 300])
+    tail = rnd.randbytes(rnd.choice([0, 1, 50, 3000]))
+    if tail and tail[0] == c:
+        tail = bytes([(c + 1) & 0xff]) + tail[1:]
+    return bytes(pre) + bytes([c]) * rl + tail
+
+
 FAMILIES = ['uniform', 'k2', 'k3', 'k4', 'k16', 'text', 'runs', 'onebyte', 'fib',
             'tandem', 'period', 'allbytes', 'sorted', 'skewed', 'boundary', 'concat', 'tiny']
 
